@@ -24,7 +24,8 @@ def data_stream(props, name="data-cosim", tails=False):
             R = random.Random(seed)
             scn = CD.gen_scenario(R, "small" if i % 5 else "large")
             if tails:
-                scn = CD.add_tail(R, scn)          # the connection ends: close request / EOF / reset / failing write
+                # the connection ends: close request (last line, or the only one) / EOF / reset / failing write
+                scn = CD.add_tail(R, scn, None if tails is True else list(tails))
                 res.distribution["tail_%s" % scn["tail"]] += 1
             SR = random.Random(seed ^ 0x5DEECE66D)
             choices = []
